@@ -33,7 +33,7 @@ RULE = ('histories: 1-3 partitions, 0-6 pre-existing and 0-14 later messages at 
         'batches emitted and >=1 commit journalled; distinct by hash(history, crash point)')
 REQUIRED = ['range_checks', 'commit_points_checked', 'restart_runs', 'messages_accounted_after_restart']
 ASSUMPTIONS = ['the in-memory client is faithful for the calls used (poll/assign/get_watermark_offsets/committed/commit/'
-               'list_topics, offset -1001 = nothing committed)', 'message values are non-empty',
+               'list_topics, offset -1001 = nothing committed; len(message) == len(value))',
                'batches of one partition complete in order (enforced by the harness consumer)']
 INCONCLUSIVE_BUDGET = 0.05
 
@@ -89,6 +89,9 @@ def gen_history(rng, tier):
         # polling loop wakes up from its sleep: the loop never notices and simply carries on (offsets stay gap-free, batches of
         # the same poll round that have been scheduled but not yet emitted are still emitted)
         h['stopstart'] = [[k, rng.choice([0.25, 0.5, -1, -3])] for k in sorted(rng.sample(range(6), rng.choice([1, 2])))]
+    if rng.random() < 0.2:
+        # some messages have an empty payload (b'') or none at all (a tombstone): they are messages like any other
+        h['empty'] = [rng.choice([0.15, 0.3, 0.6]), rng.randrange(1000), rng.choice(['b', 'none', 'mix'])]
     h['pre_holes'] = [[int(rng.random() < h['hole_rate']) for _ in range(n)] for n in h['pre']]
     return h
 
@@ -99,7 +102,19 @@ TOPIC = 'topic'
 def run_incarnation(broker, h, crash_at=None, preload=False):
     """one 'process': returns dict(log=..., crashed=bool)"""
     from streamz import Stream
+    import streamz.sources as _ssrc
+    import time as _time
+    import types as _types
     kafka_fake.install(broker)
+    # the blocking fetch sleeps in real time between polls: nothing can happen meanwhile (it blocks the loop), so do not wait
+    _ssrc.time = _types.SimpleNamespace(time=_time.time, sleep=lambda s: None)
+    try:
+        return _run_incarnation(Stream, broker, h, crash_at, preload)
+    finally:
+        _ssrc.time = _time
+
+
+def _run_incarnation(Stream, broker, h, crash_at, preload):
     out = {}
     with virtual_env() as env:
         loop = env.loop
@@ -131,14 +146,26 @@ def run_incarnation(broker, h, crash_at=None, preload=False):
             svc = h['sink']['svc']
             kcount = {'n': 0}
 
-            def part_of(batch):
-                if not batch:
-                    return None         # a range made of message-less offsets only
-                v = batch[0]['value'] if isinstance(batch[0], dict) else batch[0]
-                return int(v.split(b'-')[0][1:])
-
             def vals(batch):
-                return [(m['value'] if isinstance(m, dict) else m) for m in batch]
+                """the identities b'p<partition>-o<offset>' of the messages of a batch: their values, except that messages
+                with an empty value are identified through the range the batch was fetched for"""
+                raw = [(m['value'] if isinstance(m, dict) else m) for m in batch]
+                if all(raw):
+                    return raw
+                for e in reversed(log.ev):
+                    if e[2] == 'IN' and e[3] == 'fetch':
+                        _, topic, p, keys, low, high = e[5]
+                        ids = [('p%d-o%d' % (p, o)).encode() for o in range(low, high + 1) if not is_hole(broker, p, o)]
+                        if len(ids) == len(raw) and all(v == i for v, i in zip(raw, ids) if v):
+                            return ids
+                        break
+                return [v for v in raw if v]
+
+            def part_of(batch):
+                ids = vals(batch)
+                if not ids:
+                    return None         # a range made of message-less offsets only
+                return int(ids[0].split(b'-')[0][1:])
 
             ss = {int(k): d for k, d in h.get('stopstart', [])}
             ncall = {'n': 0}
@@ -167,24 +194,26 @@ def run_incarnation(broker, h, crash_at=None, preload=False):
 
             if kind == 'sync':
                 def sink(batch):
-                    log.add('START', 'sk', vals(batch))
+                    ids = vals(batch)
+                    log.add('START', 'sk', ids)
                     lifecycle()
-                    log.add('END', 'sk', vals(batch))
+                    log.add('END', 'sk', ids)
             else:
-                async def body(batch, k, prevs):
+                async def body(ids, k, prevs):
                     for prev in prevs:
                         await prev.wait()
                     d = svc[k % len(svc)]
                     if d:
                         await asyncio.sleep(d)
-                    log.add('END', 'sk', vals(batch))
+                    log.add('END', 'sk', ids)
 
                 def sink(batch):
                     k = kcount['n']
                     kcount['n'] += 1
-                    log.add('START', 'sk', vals(batch))
+                    ids = vals(batch)
+                    log.add('START', 'sk', ids)
                     lifecycle()
-                    p = part_of(batch)
+                    p = int(ids[0].split(b'-')[0][1:]) if ids else None
                     done = asyncio.Event()
                     if p is not None:
                         prevs = [x for x in (tail.get(p), tail.get('empty')) if x is not None]
@@ -198,7 +227,7 @@ def run_incarnation(broker, h, crash_at=None, preload=False):
 
                     async def run():
                         try:
-                            await body(batch, k, prevs)
+                            await body(ids, k, prevs)
                         finally:
                             done.set()
                     if kind == 'coro':
@@ -303,7 +332,9 @@ def check_ranges(h, inc, broker, add, counters, group_start):
             pending = None
     for i_e, o_e in pairs:
         _, topic, p, keys, low, high = i_e[5]
-        exp = [('p%d-o%d' % (p, o)).encode() for o in range(low, high + 1) if not is_hole(broker, p, o)]
+        exp = [broker.logs[p][o][1] for o in range(low, high + 1) if not is_hole(broker, p, o)]
+        if not all(exp):
+            counters['ranges_with_empty_valued_messages'] = counters.get('ranges_with_empty_valued_messages', 0) + 1
         if len(exp) < high - low + 1:
             counters['ranges_with_message_less_offsets'] = counters.get('ranges_with_message_less_offsets', 0) + 1
             if is_hole(broker, p, high):
@@ -331,6 +362,8 @@ def check_history(h, crash_at, counters, sets):
             seen.add(key)
             viols.append({'key': key, 'what': what, 'case': case})
     broker = kafka_fake.Broker(TOPIC, h['nparts'])
+    if h.get('empty'):
+        broker.empty_rule = tuple(h['empty'])
     for p, n in enumerate(h['pre']):
         for j in range(n):
             broker.produce(p, key=(b'k' if h['keys'] else None), hole_before=bool(h.get('pre_holes') and h['pre_holes'][p][j]))
@@ -366,7 +399,14 @@ def check_history(h, crash_at, counters, sets):
                     n_events = len(inc['log'].ev)
                     summary = {'restarted': False}
                 return SetAside, []
+        for e in inc['log'].ev:
+            if e[2] == 'KAFKA' and e[4] == 'fetch_blocked_for_ever':
+                add('C09:fetch-of-a-batch-never-returns', 'partition %d: the fetch went on polling at offset %d, beyond the last message of '
+                    'its range, for ever (it blocks the event loop): %s' % (e[5], e[6], 'the last message of the range has an empty value'
+                                                                          if h.get('empty') else '?'))
         for name, msg, exc in inc['errors']:
+            if isinstance(exc, kafka_fake.FetchBlockedForEver):
+                continue
             if h.get('fetch_failures') and isinstance(exc, kafka_fake.KafkaException):
                 counters['injected_fetch_failures_seen'] = counters.get('injected_fetch_failures_seen', 0) + 1
                 continue
